@@ -6,8 +6,9 @@ import JPV.Gen.PegRuntimeGo
 `reset`, `add`, `memoize`, `memoizedResult`, `matchDot` of `Init`, translated statement by statement. This file
 proves the local claims the header of `Gen/PegGoRules.lean` only STATED about them.
 
-What is NOT here (still the trusted reading, DESIGN §12.7): `parse`/`Parse`/`Reset`/the option loop of `Init`, and the
-composition — that the rule functions running on this runtime compute `Peg.run`. The lookup `memoization[memoKey{N,
+What is NOT here: the option loop of `Init` (still the trusted reading, DESIGN §12.7). `parse`/`Parse`/`Reset` are translated
+since L30 (§6 below), and the composition — that the rule functions running on this runtime compute `Peg.run` — is
+proved in Props/RunGoGen.lean and Props/RunGoParse.lean. The lookup `memoization[memoKey{N,
 position}]` at the head of every rule function belongs to the rule-function template checked by `pegrules`; it is
 `lookup s.memo (N, s.position)` here, a pure function of the table: a MISS therefore changes nothing by construction,
 and after `reset` every lookup misses (`PR_reset`).
@@ -374,10 +375,49 @@ theorem PR_matchDot (s : RT) (inp : List Nat) (hbuf : s.buffer = inp ++ [endSymb
 example : (matchDot { ex1 with position := 0 }).map (fun (ok, s) => (ok, s.position)) = some (true, 1) := by decide +kernel
 example : (matchDot ex1).map (fun (ok, s) => (ok, s.position)) = some (false, 1) := by decide +kernel
 
+/-! ## 6. parse / Parse / Reset (translated since L30; `ruleFn r` stands for the call `p.rules[r]()`) -/
+
+/-- `Parse()` without argument calls `p.rules[1]` (= ruleexpression); on success it publishes the token tree trimmed to
+tokenIndex (`p.tokens32 = tree; p.Trim(tokenIndex)`) and returns nil; nothing else changes -/
+theorem PR_parse_ok (ruleFn : Int → RT → Option (Bool × RT)) (s s1 : RT) (h : ruleFn 1 s = some (true, s1)) (hi : Inv s1) :
+    parse ruleFn [] s = some (none, { s1 with ptree := s1.tree.take s1.tokenIndex }) := by
+  unfold parse
+  simp [h, tokens32_Trim, sliceTo, show s1.tokenIndex ≤ s1.tree.length from hi]
+
+/-- on failure it returns `&parseError{p, max}` and publishes the untrimmed tree; nothing else changes -/
+theorem PR_parse_fail (ruleFn : Int → RT → Option (Bool × RT)) (s s1 : RT) (h : ruleFn 1 s = some (false, s1)) :
+    parse ruleFn [] s = some (some s1.max, { s1 with ptree := s1.tree }) := by
+  unfold parse
+  simp [h]
+
+/-- a panic in the rule function (or a nil / out-of-range table entry) is a panic of `parse` -/
+theorem PR_parse_panic (ruleFn : Int → RT → Option (Bool × RT)) (s : RT) (h : ruleFn 1 s = none) :
+    parse ruleFn [] s = none := by
+  unfold parse
+  simp [h]
+
+/-- with an argument, `parse` calls that table entry instead -/
+theorem PR_parse_arg (ruleFn : Int → RT → Option (Bool × RT)) (r : Int) (rest : List Int) (s s1 : RT) (b : Bool)
+    (h : ruleFn r s = some (b, s1)) (hi : Inv s1) :
+    parse ruleFn (r :: rest) s = some (if b then (none, { s1 with ptree := s1.tree.take s1.tokenIndex })
+      else (some s1.max, { s1 with ptree := s1.tree })) := by
+  unfold parse
+  cases b <;> simp [h, getAtI, tokens32_Trim, sliceTo, show s1.tokenIndex ≤ s1.tree.length from hi]
+
+theorem PR_Parse (ruleFn : Int → RT → Option (Bool × RT)) (rule : List Int) (s : RT) : Parse ruleFn rule s = parse ruleFn rule s := rfl
+
+theorem PR_Reset (s : RT) : Reset s = reset s := rfl
+
+example : (parse (fun r s => if r = 1 then some (true, { s with tokenIndex := 1 }) else none) [] ex1).map
+    (fun (e, s) => (e, s.ptree)) = some (none, [⟨3, 0, 1⟩]) := by decide +kernel
+example : (parse (fun r s => if r = 1 then some (false, s) else none) [] ex1).map
+    (fun (e, s) => (e, s.ptree)) = some (some ⟨0, 0, 0⟩, [⟨3, 0, 1⟩, ⟨9, 0, 0⟩]) := by decide +kernel
+
 -- OBLIGATIONS: PR_tokens32_Add PR_trim PR_tokens PR_add_eq PR_add PR_lookup_store_same PR_lookup_store_other
 --   PR_memoize_true PR_memoize_false PR_memoize_disabled PR_memoizedResult_false PR_memoizedResult_true
 --   PR_memo_roundtrip_true PR_memo_roundtrip_false PR_add_memo_position PR_memo_frame_memoize
 --   PR_memoize_only_memo PR_memo_frame_add PR_memo_frame_memoizedResult PR_memo_frame_matchDot PR_reset PR_matchDot
+--   PR_parse_ok PR_parse_fail PR_parse_panic PR_parse_arg PR_Parse PR_Reset
 
 end PegRuntimeGen
 end JPV
